@@ -68,6 +68,8 @@ func rulesC11(c *Ctx, r *Report) {
 	rulesWholeLines(c, r, "formats/sam")
 	rulesWholeLines(c, r, "formats/bed")
 	rulesFastaAutomaton(c, r)
+	rulesNewickTokenizer(c, r)
+	rulesNewickParser(c, r)
 }
 
 // rulesPanics (PANIC).
